@@ -44,7 +44,9 @@ fn main() {
         std::process::exit(2);
     };
     // sea-query panics are caught and turned into verdicts; keep stderr readable
-    std::panic::set_hook(Box::new(|_| {}));
+    if std::env::var("SQV_SHOW_PANICS").is_err() {
+        std::panic::set_hook(Box::new(|_| {}));
+    }
 
     if let Some(file) = replay {
         let ctx = Ctx::new(&id, tier, seed, root, &config);
